@@ -207,13 +207,84 @@ Theorem C16_zero_workers_deadlock :
 Proof. exact zero_workers_deadlock. Qed.
 Print Assumptions C16_zero_workers_deadlock.
 
+(* ---- after the call: once the query has returned or raised nothing is done for it any more ---- *)
+
+(* queue strategy: when main is done the queue is empty, every range taken has been marked done and no worker holds a range *)
+Theorem C16_queue_quiet_when_done : forall file fails ranges workers s, (1 <= workers)%nat ->
+  reach gen_worker_prog file fails (init gen_main_prog ranges workers) s -> main_done s = true ->
+  s_q s = [] /\ s_unf s = O /\ forallb w_idle (s_ws s) = true.
+Proof. exact queue_quiet. Qed.
+Print Assumptions C16_queue_quiet_when_done.
+
+(* ... and the only step any thread can still take is a worker finding the queue empty and leaving its loop: no request is
+   issued, no result published, no task_done called after the call has returned or raised (the threads are not joined by
+   http_queue_strategy: a worker may be on its way out when join() lets main go) *)
+Theorem C16_queue_only_exits_after_done : forall file fails ranges workers s t s', (1 <= workers)%nat ->
+  reach gen_worker_prog file fails (init gen_main_prog ranges workers) s -> main_done s = true ->
+  step gen_worker_prog file fails s t = Some s' ->
+  exists i, t = S i /\ s' = with_w s i WExit (s_q s) (s_unf s) (s_resq s).
+Proof. exact queue_after_done. Qed.
+Print Assumptions C16_queue_only_exits_after_done.
+
+(* the same with main's puts and thread starts as steps of their own: every range was put, every worker started *)
+Theorem C16_queue_steps_quiet_when_done : forall file fails ranges workers ps, (1 <= workers)%nat ->
+  preach gen_worker_prog file fails (pinit gen_main_prog ranges workers) ps -> main_done (p_s ps) = true ->
+  p_toput ps = [] /\ p_tostart ps = O /\ s_q (p_s ps) = [] /\ s_unf (p_s ps) = O /\ forallb w_idle (s_ws (p_s ps)) = true.
+Proof. exact prologue_quiet. Qed.
+Print Assumptions C16_queue_steps_quiet_when_done.
+
+Theorem C16_queue_steps_only_exits_after_done : forall file fails ranges workers ps t ps', (1 <= workers)%nat ->
+  preach gen_worker_prog file fails (pinit gen_main_prog ranges workers) ps -> main_done (p_s ps) = true ->
+  pstep gen_worker_prog file fails ps t = Some ps' ->
+  exists i, t = S i /\ ps' = mkP [] O (with_w (p_s ps) i WExit [] O (s_resq (p_s ps))).
+Proof. exact prologue_after_done. Qed.
+Print Assumptions C16_queue_steps_only_exits_after_done.
+
+(* executor strategy: once the with block has been left no thread takes another step *)
+Theorem C16_exec_nothing_after_done : forall file fails ranges workers s o, (1 <= workers)%nat ->
+  xreach gen_exec_stream_per_job gen_exec_collect gen_exec_job file fails (xinit ranges workers) s ->
+  x_main s = XDone o -> xstuck gen_exec_stream_per_job gen_exec_collect gen_exec_job file fails s.
+Proof. exact exec_done_final. Qed.
+Print Assumptions C16_exec_nothing_after_done.
+
+(* ---- successive queries on ONE reader (gen_fetch_site: what _fetch_all_chunks keeps of a query for the next ones) ---- *)
+
+(* the reader keeps nothing: every query of a session yields exactly what its own strategy run yields on its own ranges *)
+Theorem C16_session_query_is_its_own_fetch : forall m qs,
+  reader_session gen_fetch_site m qs = map (fun q => snd q (fst q)) qs.
+Proof. exact session_direct. Qed.
+Print Assumptions C16_session_query_is_its_own_fetch.
+
+(* ... so, whatever the earlier queries were (other levels, other boxes, ranges with the same start and another length), with
+   either strategy, any worker count >= 1, any schedule and any server behaviour during that query: each query yields the local
+   read of its own ranges, or raises the error of one of its own failed requests *)
+Theorem C16_session_each_query_equals_local : forall file (qs : list squery),
+  Forall (fun q => StronglySorted (fun a b : range => fst a < fst b) (q_ranges q) /\
+                   strategy_run file (q_server q) (q_ranges q) (q_fetch q (q_ranges q))) qs ->
+  Forall2 (fun q o => query_spec file (q_server q) (q_ranges q) o) qs
+          (reader_session gen_fetch_site [] (map (fun q => (q_ranges q, q_fetch q)) qs)).
+Proof. exact session_each_query. Qed.
+Print Assumptions C16_session_each_query_equals_local.
+
+(* regression witness: a block cache in the reader keyed by the start offset of a range answers the second of two queries whose
+   ranges start at the same offset with different lengths from the shorter block; keyed by (offset, size), or absent, it is right *)
+Theorem C16_offset_keyed_block_cache_refuted :
+  let file := [1; 2; 3; 4] in
+  let honest := fun rs : list range => OReturned (local_read file rs) in
+  let qs := [([(0, 2)], honest); ([(0, 4)], honest)] in
+  reader_session (FsMemo true) [] qs = [OReturned [1; 2]; OReturned [1; 2]] /\
+  reader_session (FsMemo false) [] qs = [OReturned [1; 2]; OReturned [1; 2; 3; 4]] /\
+  reader_session gen_fetch_site [] qs = [OReturned [1; 2]; OReturned [1; 2; 3; 4]].
+Proof. exact memo_by_offset_refuted. Qed.
+Print Assumptions C16_offset_keyed_block_cache_refuted.
+
 (* the shape of the source the theorems above are about (regenerated from laspy/copc.py on every run) *)
 Theorem C16_source_shape :
   gen_worker_prog = [ITake false; IFetch; IPutResult; IPutExc; ITaskDone] /\
   gen_main_prog = [MPutAll; MStart true; MJoin; MDrain; MSort; MAssemble] /\
   gen_stream_read = [SZeroEmpty; SRequest; SRaiseForStatus; SAdvance; SReturnContent] /\
-  (forall n, gen_fetch_workers n = n).
-Proof. exact (conj (proj1 source_shape) (conj (proj2 source_shape) (conj sr_shape fetch_workers_id))). Qed.
+  (forall n, gen_fetch_workers n = n) /\ gen_fetch_site = FsDirect.
+Proof. exact (conj (proj1 source_shape) (conj (proj2 source_shape) (conj sr_shape (conj fetch_workers_id fetch_site_direct)))). Qed.
 Print Assumptions C16_source_shape.
 
 (* 3 ranges queued out of offset order, 2 workers, the middle request fails / nothing fails; the higher offsets are answered first;
